@@ -335,6 +335,33 @@ Proof.
 Qed.
 
 (* ---- one set message on the slot it addresses (used by C15's end-to-end model) ---- *)
+Lemma rLIMIT_pick_gen : forall V (ltb : V -> V -> bool) mn mx v,
+  let r := rLIMIT ltb mn mx v in r = v \/ mn = Some r \/ mx = Some r.
+Proof.
+  intros V ltb mn mx v. unfold rLIMIT.
+  destruct mn as [lo|]; destruct mx as [hi|]; cbn zeta;
+    repeat match goal with |- context [if ?c then _ else _] => destruct c end; auto.
+Qed.
+
+(* what a float callback stores is the value it held, the incoming value or a bound *)
+Definition float_pick (k : kind) (e : penv) (old : Z) (args : list arg) (new : Z) : Prop :=
+  forall P : Z -> Prop, (k = KF \/ k = KAF) -> P old -> (forall b, args = [Af b] -> P b) ->
+    (forall b, p_min e = Some b -> P b) -> (forall b, p_max e = Some b -> P b) -> P new.
+
+Lemma rParamFCb_pick : forall k e loc old args st o,
+  (args = [] \/ exists a, args = [a]) ->
+  rParamFCb e loc old args = Some (st, o) -> float_pick k e old args st.
+Proof.
+  intros k e loc old args st o Hsh H P _ Po Pa Pmn Pmx.
+  destruct Hsh as [E|[a E]]; subst args; cbn in H.
+  - inversion H; subst. exact Po.
+  - destruct a; try discriminate. cbn in H. unfold limit_apply_bcast in H. inversion H; subst.
+    destruct (rLIMIT_pick_gen Z fltb (p_min e) (p_max e) bits) as [E|[E|E]].
+    + rewrite E. apply Pa. reflexivity.
+    + apply Pmn. exact E.
+    + apply Pmx. exact E.
+Qed.
+
 Lemma elem_set_facts : forall k e cb loc old args st o,
   elem_cb k = Some cb -> env_ok e k ->
   bounds_ordered (kind_key k) (p_min e) (p_max e) -> map_in_range e ->
@@ -343,11 +370,12 @@ Lemma elem_set_facts : forall k e cb loc old args st o,
   stable e k st /\
   undo_events o = (if kind_key k old =? kind_key k st then []
                    else [Reply (mk undo_path [As loc; event_arg k old; event_arg k st])]) /\
-  (forall v, args = [event_arg k v] -> stable e k v -> st = v).
+  (forall v, args = [event_arg k v] -> stable e k v -> st = v) /\
+  float_pick k e old args st.
 Proof.
   intros k e cb loc old args st o Hcb Henv Hord Hmap Hc Hold Hloc H.
   destruct (elem_event k e cb loc old args st o Hcb Henv Hord Hmap Hc Hold H) as [Hnew _].
-  split; [exact Hnew|]. split.
+  split; [exact Hnew|]. split; [|split].
   - destruct Hold as (Hv & _ & _).
     destruct (conforming_shape e k args Hc) as [E|[x E]]; subst args.
     + assert (Q : st = old /\ exists y, o = [Reply (mk loc [y])]).
@@ -369,6 +397,9 @@ Proof.
   - intros v Ea Hv. subst args. destruct Hold as (Vo & _ & _).
     destruct (elem_replay k e cb loc old v Hcb Henv Vo Hv) as (_ & _ & o' & R).
     rewrite H in R. inversion R. reflexivity.
+  - intros P Hk. pose proof (conforming_shape e k args Hc) as Hsh.
+    destruct Hk; subst k; inversion Hcb; subst cb;
+      exact (rParamFCb_pick _ e loc old args st o Hsh H P (or_introl eq_refl)).
 Qed.
 
 (* the entry of the port's state that the message addresses *)
@@ -384,7 +415,8 @@ Definition slot_facts (k : kind) (e : penv) (loc m : str) (st : list Z) (args : 
     stable e k old /\ stable e k new /\
     undo_events outs = (if kind_key k old =? kind_key k new then []
                         else [Reply (mk undo_path [As loc; event_arg k old; event_arg k new])]) /\
-    (forall v, args = [event_arg k v] -> stable e k v -> new = v).
+    (forall v, args = [event_arg k v] -> stable e k v -> new = v) /\
+    float_pick k e old args new.
 
 Lemma step_slot_facts : forall k e loc m st args st' outs,
   undo_kind k -> env_ok e k ->
@@ -402,11 +434,11 @@ Proof.
     destruct st as [|old [|w r]]; try discriminate.
     destruct (cb e loc old args) as [[v' o']|] eqn:E; [|discriminate]. inversion HS; subst st' outs.
     inversion Hst' as [|? ? Hold _]; subst.
-    destruct (elem_set_facts k e cb loc old args v' o' Hcb Henv Hord Hmap Hc' Hold Hloc E) as (A & B & C).
+    destruct (elem_set_facts k e cb loc old args v' o' Hcb Henv Hord Hmap Hc' Hold Hloc E) as (A & B & C & D).
     exists old, v'. rewrite Hs. cbn [nth_error].
     split; [reflexivity|]. split; [reflexivity|]. split; [reflexivity|].
     split; [intros j Hj _; destruct j; [contradiction|]; destruct j; reflexivity|].
-    split; [exact Hold|]. split; [exact A|]. split; [exact B|exact C]. }
+    split; [exact Hold|]. split; [exact A|]. split; [exact B|]. split; [exact C|exact D]. }
   assert (AR : forall cb, elem_cb k = Some cb -> slot k e m = Z.to_nat (boils_idx e m) ->
                conforming e k args -> Forall (stable e k) st ->
                at_idx st (boils_idx e m) (fun cur => cb e loc cur args) = Some (st', outs) ->
@@ -415,11 +447,11 @@ Proof.
     destruct (nth_error st (slot k e m)) as [old|] eqn:En; [|discriminate].
     destruct (cb e loc old args) as [[v' o']|] eqn:E; [|discriminate]. inversion HA; subst st' outs.
     pose proof (Forall_nth_error _ _ _ _ _ Hst' En) as Hold.
-    destruct (elem_set_facts k e cb loc old args v' o' Hcb Henv Hord Hmap Hc' Hold Hloc E) as (A & B & C).
+    destruct (elem_set_facts k e cb loc old args v' o' Hcb Henv Hord Hmap Hc' Hold Hloc E) as (A & B & C & D).
     assert (Hlt : (slot k e m < length st)%nat) by (apply nth_error_Some; rewrite En; discriminate).
     exists old, v'. split; [exact En|]. split; [apply nth_error_upd_same; exact Hlt|].
     split; [apply length_upd|]. split; [intros j Hj _; apply nth_error_upd_other; congruence|].
-    split; [exact Hold|]. split; [exact A|]. split; [exact B|exact C]. }
+    split; [exact Hold|]. split; [exact A|]. split; [exact B|]. split; [exact C|exact D]. }
   destruct Hk as [[Hk|[Hk|[Hk|[Hk|[Hk|[Hk|Hk]]]]]]|Hk]; subst k; cbn [step] in H.
   - exact (SC rParamCb eq_refl eq_refl ltac:(discriminate) Hc Hst H).
   - exact (SC rParamICb eq_refl eq_refl ltac:(discriminate) Hc Hst H).
@@ -432,9 +464,10 @@ Proof.
     rewrite counted_as_option in H.
     destruct (rOptionCb e loc v args) as [[v' o']|] eqn:E; [|discriminate]. inversion H; subst st' outs.
     change (stable e KO v) in Hold. change (conforming e KO args) in Hc.
-    destruct (elem_set_facts KO e rOptionCb loc v args v' o' eq_refl I Hord Hmap Hc Hold Hloc E) as (A & B & C).
+    destruct (elem_set_facts KO e rOptionCb loc v args v' o' eq_refl I Hord Hmap Hc Hold Hloc E) as (A & B & C & D).
     exists v, v'. cbn [slot nth_error].
     split; [reflexivity|]. split; [reflexivity|]. split; [reflexivity|].
     split; [intros j _ Hn; exfalso; apply Hn; reflexivity|].
-    split; [exact Hold|]. split; [exact A|]. split; [exact B|exact C].
+    split; [exact Hold|]. split; [exact A|]. split; [exact B|]. split; [exact C|].
+    intros P [Hk|Hk]; discriminate Hk.
 Qed.
